@@ -148,7 +148,14 @@ T = {
 
 
 def main():
+    # later rounds keep their descriptive table next to the seeds (seeded/round*.json: {id: {prop, change, needs, caught, extra}})
+    for f in sorted(os.listdir(SEEDED)):
+        if re.fullmatch(r"round\d+\.json", f):
+            T.update(json.load(open(os.path.join(SEEDED, f))))
+    only = set(sys.argv[1:])
     for sid, t in sorted(T.items()):
+        if only and sid not in only:
+            continue
         d = os.path.join(SEEDED, sid)
         if not os.path.isdir(d):
             continue
